@@ -10,6 +10,7 @@ from sa.astutil import (facts_at, try_fold, call_name, calls_in, dotted, fact_te
                         walk_no_nested, last_attr, block_always_exits)
 from sa.consteval import ConstEval, UNKNOWN
 from sa.loader import AnalysisError
+from sa.canon import canon
 from checks import common
 
 STRING_ENV = {'string.ascii_uppercase': string.ascii_uppercase,
@@ -277,6 +278,23 @@ def run(ctx):
             sign_ok = env_t.get(sign_var) == -1 and env_f.get(sign_var) == 1 and strip
     ctx.ob('C19.R1', 'sign-handling', sign_ok,
            "a leading '-' gives sign -1 and is removed; otherwise the sign is +1", mod, fn)
+    # the padding is removed before the sign is looked for, and nothing is
+    # stripped afterwards: a right-justified negative serial ('   -1') has its
+    # sign behind the blanks, and blanks between sign and digits ('- 12') are
+    # illegal characters of the field, not padding
+    dcan = canon(fn)
+    fparam = [a.arg for a in fn.args.args][0]
+    sign_tests = [n for n in walk_no_nested(fn) if isinstance(n, ast.Call) and last_attr(n) == 'startswith'
+                  and n.args and isinstance(n.args[0], ast.Constant) and n.args[0].value == '-']
+    on_stripped = bool(sign_tests) and all(
+        dcan.text(t.func.value).replace('"', "'") == "%s.strip(' ')" % fparam for t in sign_tests)
+    first_sign = min((t.lineno for t in sign_tests), default=0)
+    late = [c for c in strips if c.lineno > first_sign]
+    ctx.ob('C19.R2', 'padding:stripped-before-the-sign-test', on_stripped and not late and len(strips) == 1,
+           "the '-' is looked for in the field with its blanks already stripped (tested string: %s) and "
+           'nothing is stripped after that (%d later strip calls)'
+           % ([dcan.text(t.func.value) for t in sign_tests], len(late)), mod,
+           late[0] if late else (sign_tests[0] if sign_tests else fn))
 
     # ------------------------------------------------------------------ R3
     sites = []
